@@ -6,6 +6,9 @@ scale, array elements in another order.  So, for every leaf element of every C++
 
   unpack: a buffer that is zero except for a known value written little-endian at the element's C++ offset is unpacked
           on every call path; the Python value found at the element's Python path is reported exactly (as a fraction);
+  cross-field: the same, with every OTHER top-level member of the struct in turn filled with 0xFF bytes (every invalid marker),
+          with 0x7F/0x80 bytes and with pseudo-random bytes: what Python reads for the member under test must not depend on
+          what another member holds (members merged into one attribute and count/length members aside);
   pack:   the Python value the C++ value means (raw x scale) is set at that Python path of the zero object, the object is
           packed, and the number found at the element's C++ offset is reported; all other bytes must stay as they were;
   in place: an object with every leaf set is packed into caller-supplied buffers pre-filled with 0xA5 at offsets 1, 3, 8, 24
@@ -200,6 +203,48 @@ def run_struct(spec):
                 except Exception as e:
                     row['note'] = repr(e)[:160]
                 rows.append(row)
+    # ---- cross-field: the member under test keeps its value whatever any other member holds
+    import random as _random
+    members = spec.get('members', [])
+    rnd = _random.Random(spec['cpp'])
+    patterns = [('0xFF bytes', lambda k: bytes([0xFF]) * k), ('0x7F/0x80 bytes', lambda k: bytes([0x7F, 0x80] * k)[:k]),
+                ('pseudo-random bytes', lambda k: bytes(rnd.randrange(256) for _ in range(k)))]
+    ad0 = ads[paths[0]]
+    for leaf in spec['leaves']:
+        if leaf.get('lengthlike') or (leaf['cpp'].endswith(']') and not leaf['cpp'].endswith('[0]')):
+            continue
+        v = leaf['values'][0]
+        if unsuitable(leaf, v):
+            continue
+        others = [m for m in members if m['name'] != leaf['top'] and m['name'] not in leaf.get('merged_with', [])]
+        if not others or isinstance(ad0, Exception):
+            continue
+        for pname, fill in patterns:
+            row = {'struct': spec['cpp'], 'leaf': leaf['cpp'], 'how': 'unpack with every other member in turn holding ' + pname, 'raw': frac(v),
+                   'scale': leaf['scale'], 'obs': None}
+            seen, tried, culprit = None, 0, None
+            for m in others:
+                buf = blank(n + TAIL)
+                buf[m['offset']:m['offset'] + m['size']] = fill(m['size'])
+                buf[leaf['offset']:leaf['offset'] + leaf['size']] = encode(leaf['kind'], leaf['size'], v)
+                try:
+                    o, _ = ad0.unpack(buf)
+                    got = frac(resolve(o, leaf['pypath']))
+                except Exception:
+                    continue                      # this other member does not accept the pattern (strict enum, huge count)
+                tried += 1
+                if seen is None:
+                    seen = got
+                if got != seen or got is None:
+                    culprit = (m['name'], got)
+                    break
+            if tried == 0:
+                row.update(how='skipped', skip='no other member accepts ' + pname)
+            elif culprit:
+                row['note'] = 'reads %s when member %s holds %s' % ('nothing finite' if culprit[1] is None else float(Fraction(*culprit[1])), culprit[0], pname)
+            else:
+                row['obs'] = seen
+            rows.append(row)
     # ---- pack direction
     ad = ads[paths[0]]
     base_obj = base_packed = None
